@@ -232,5 +232,20 @@ CHECKS["C13"] = {
             "different names only through class-level caches, which the late-subclass event exercises); known "
             "finding: wildcard trait cached in the base class before a subclass is defined",
 }
+CHECKS["C20"] = {
+    "category": "model_checking",
+    "technique": MC + " (history BFS with dedup on values+link graph+liveness; directed link graph with transitive propagation as reference; explicit GC events; internal handler exceptions captured)",
+    "text": "Three objects with two Int and two List(Int) traits; every history up to depth 3 (4 thorough) over ~90 "
+            "events: sync/unsync in 8 styles (mutual, one-way, alias, second partner; scalar and list), scalar "
+            "assignments on every side, 15 list mutators on four lists (incl. extended-slice set/delete with positive "
+            "and negative step, +=, *=, sort, reverse, clear, whole-value), garbage collection of a partner. After "
+            "each step everything reachable along link direction from the changed attribute must equal it, "
+            "everything else must be untouched (one-way reverse direction, former partners, after unsync/GC), no "
+            "handler is called twice for one change, nothing is raised to the caller or inside the library's own "
+            "synchronisation handlers (captured through a recording exception handler), no RecursionError, lock "
+            "entries never stay set and the sync tables are back to baseline when no link is left.",
+    "note": "Dict/Set items documented as not synchronised; 3 objects; a one-way target that diverged on its own is "
+            "not constrained by later in-place mutations of the source (statement only fixes assignments there)",
+}
 
 NOT_CLAIMED = {}
